@@ -80,6 +80,10 @@ def make_case(unit):
                                 hide_some=False)
     if wmode == "float" and g.chance(0.5) and mode != "twobytwo":
         cases.add_total_subtotals(facets, transforms)
+    if g.chance(0.2) and mode != "degenerate":
+        # hide all but one row (or column): the survivors' residuals are those of the whole
+        # table, hidden vectors still count in every base
+        _hide_all_but_one(g, facets, transforms)
     if g.chance(0.3):
         # sort by the very statistics under test (their NaN cells are sort keys too): what is
         # reported must not depend on having been used as a sort key
@@ -87,6 +91,22 @@ def make_case(unit):
     spec = sim.CubeSpec(facets, g.weights(N, wmode), ())
     return {"template": template, "spec": sim.spec_to_dict(spec), "transforms": transforms,
             "ins": ins, "mode": mode}
+
+
+def _hide_all_but_one(g, facets, transforms):
+    from .. import transforms as T
+
+    o = sim.Oracle(sim.CubeSpec(facets, None, ()))
+    nd = o.ndim
+    key, d = g.pick([("rows_dimension", nd - 2), ("columns_dimension", nd - 1)])
+    ids, _ = T.transform_ids(o, d)
+    if len(ids) < 2:
+        return
+    keep = g.pick(ids)
+    dd = transforms.setdefault(key, {})
+    dd["elements"] = {str(i): {"hide": True} for i in ids if i != keep}
+    dd.pop("insertions", None)
+    dd["insertions"] = []  # no subtotal shown either: exactly one vector is displayed
 
 
 def _sort_by_residuals(g, facets, transforms):
